@@ -466,23 +466,39 @@ def to_fit_range(
         raise ValueError("Fitting range should have 4 or 6 values")
 
 
+def _extent(data: slice, size: int) -> int:
+    """Get the number of elements selected by a slice in a dimension of 'size' elements."""
+    return len(range(*data.indices(size)))
+
+
 def _check_out_fit_ranges(
     target_fit_range: FitRange2D | FitRange3D,
     out_fit_range: FitRange2D | FitRange3D,
+    rows: int,
+    cols: int,
+    readout_times: int | None,
+    out_rows: int,
+    out_cols: int,
+    out_readout_times: int | None,
 ):
-    if (
-        isinstance(target_fit_range, FitRange3D)
-        and isinstance(out_fit_range, FitRange3D)
-        and target_fit_range.time.stop != out_fit_range.time.stop
-    ):
-        raise ValueError(
-            "Fitting ranges have different lengths in dimension 'readout time'"
+    if readout_times is not None and out_readout_times is not None:
+        target_time: slice = (
+            target_fit_range.time
+            if isinstance(target_fit_range, FitRange3D)
+            else slice(None)
         )
+        out_time: slice = (
+            out_fit_range.time if isinstance(out_fit_range, FitRange3D) else slice(None)
+        )
+        if _extent(target_time, readout_times) != _extent(out_time, out_readout_times):
+            raise ValueError(
+                "Fitting ranges have different lengths in dimension 'readout time'"
+            )
 
-    if target_fit_range.row.stop != out_fit_range.row.stop:
+    if _extent(target_fit_range.row, rows) != _extent(out_fit_range.row, out_rows):
         raise ValueError("Fitting ranges have different lengths in dimension 'y'")
 
-    if target_fit_range.col.stop != out_fit_range.col.stop:
+    if _extent(target_fit_range.col, cols) != _extent(out_fit_range.col, out_cols):
         raise ValueError("Fitting ranges have different lengths in dimension 'x'")
 
 
@@ -493,6 +509,9 @@ def check_fit_ranges(
     rows: int,
     cols: int,
     readout_times: int | None = None,
+    out_rows: int | None = None,
+    out_cols: int | None = None,
+    out_readout_times: int | None = None,
 ) -> None:
     """Check if ``target_fit_range`` and ``out_fit_range`` are valid.
 
@@ -512,6 +531,12 @@ def check_fit_ranges(
     readout_times : int, Optional
         Number of readout times. This parameter is only used if the target fit range is
         a 3D range.
+    out_rows : int, Optional
+        Number of rows of the simulated data. Default: same as ``rows``.
+    out_cols : int, Optional
+        Number of columns of the simulated data. Default: same as ``cols``.
+    out_readout_times : int, Optional
+        Number of readout times of the simulated data. Default: same as ``readout_times``.
 
     Raises
     ------
@@ -523,7 +548,16 @@ def check_fit_ranges(
 
     if out_fit_range:
         _check_out_fit_ranges(
-            target_fit_range=target_fit_range, out_fit_range=out_fit_range
+            target_fit_range=target_fit_range,
+            out_fit_range=out_fit_range,
+            rows=rows,
+            cols=cols,
+            readout_times=readout_times,
+            out_rows=rows if out_rows is None else out_rows,
+            out_cols=cols if out_cols is None else out_cols,
+            out_readout_times=(
+                readout_times if out_readout_times is None else out_readout_times
+            ),
         )
 
     if isinstance(target_fit_range, FitRange2D):
